@@ -49,6 +49,12 @@ def histories(draw, target=None, tp=False):
     steps = []
     for _ in range(draw(st.integers(0, 3))):
         k = draw(st.sampled_from(["objects", "objects", "compile", "options", "sibling", "tp", "self", "self", "same-objects"]))
+        if k == "same-objects" and draw(st.booleans()):
+            # another generated form compiled earlier with the very same options *object* as the target (an API caller reusing one
+            # options dictionary): options must not be modified by a compilation
+            prof = dict(P_TP, measures=["dx", "ds"]) if tp else dict(P_OTHER, measures=["dx", "ds", "dS"])
+            steps.append(["compile-shared", strategies.strip_meta(draw(strategies.form_specs(prof)))])
+            continue
         if k == "same-objects":
             # the same UFL objects (not a rebuilt copy) compiled earlier with other options
             opts = draw(st.sampled_from([{"scalar_type": "complex128"}, {"scalar_type": "float32"}, {"scalar_type": "float64"}, {"table_rtol": 1e-3, "table_atol": 1e-3},
@@ -148,7 +154,7 @@ def evaluate(case, wd):
     for k, v in enumerate(case["variants"]):
         job = dict(base_job, family=v["family"], steps=v["steps"])
         out, err = procs.run_job("vf.child_codegen", job, wd, f"{h}_v{k}", hashseed=v["hashseed"])
-        vdesc = {"steps": [s[:2] if s[0] != "compile" else ["compile", "<spec>", s[2]] for s in v["steps"]], "hashseed": v["hashseed"], "family": v["family"]}
+        vdesc = {"steps": [["compile-shared", "<spec>"] if s[0] == "compile-shared" else (s[:2] if s[0] != "compile" else ["compile", "<spec>", s[2]]) for s in v["steps"]], "hashseed": v["hashseed"], "family": v["family"]}
         classes += [f"family:{v['family']}", f"steps:{len(v['steps'])}"] + [f"step:{s[0]}" for s in v["steps"]]
         if out is None:
             return Outcome("harness-error", case_id=h, classes=classes, what=err)
